@@ -10,12 +10,19 @@ Sub-checks
              values, +-1 around zero, first / last quantisation step) one field at a time over two seeded backgrounds, all
              pairs of ordered fields at (max, max), (0, max), (max, 0), all fields at min / max, the full product of the
              boundary lists where it is small, and computed check values steered to {0, 1, max-1, max, top bit, below top}.
+             Dedicated codes: every free-form integer field takes every member value of every enum the variant carries and
+             every explicit value such a member stands for (vp/refs/elements_ref.DEDICATED: UDP ports 5016 / 5017 for SPID /
+             DPID 1 / 2; +-1, decoys) while the identifier is at its escape member, wide fields pairwise (source and
+             destination together), string fields in their first / last 8 / 16 bits; small integer fields of one variant at
+             equal and adjacent values; every value of every field of <= 8 bits one at a time.
   decode     (b) arbitrary right-length bit strings (about half of them steered into implemented opcodes / formats / zero
              check fields): documented rejection, or the serialisation is a fixed point of decode-then-encode.
   decode_boundary (b) deterministic pass per decoder: all-zero / all-ones / alternating strings, every implemented opcode /
              format (and inner enum / zero check field template) with zero, one and seeded random fill, and every single-bit
              flip of the zero- and one-filled strings (every reserved bit set / cleared one at a time, every opcode and enum
-             field at distance one from its constants); UDP/IPv4 at the lengths around its 40 / 56 / 72-bit exact fits.
+             field at distance one from its constants); UDP/IPv4 at the lengths around its 40 / 56 / 72-bit exact fits;
+             identifier at its escape member with the explicit field(s) carrying every dedicated value (+-1, decoys, member
+             values), singly and together, at the exact-fit length and longer.
   decode_atheris  (thorough) the same decoders and oracle under a coverage-guided Atheris campaign (vp/c03_atheris.py).
   elements   (c) every value 0..2^w-1 of every w<=8-bit element type against vp/refs/elements_ref.py.
   sync       the ten SYNC constants + random 48-bit values (SyncPatterns; not part of the w<=8 exhaustive claim).
@@ -46,9 +53,12 @@ RULE = (
     "build_boundary: deterministic enumeration per variant - every boundary value of every field ({0,1,max-1,max,top bit, "
     "all ones below top}, every enum member, all-zero/all-ones/alternating strings, extreme and +-1-around-zero raw GPS values, "
     "exact-fit lengths) one field at a time over two seeded backgrounds, all pairs of ordered fields at (max,max),(0,max),(max,0), "
-    "small full products, computed check values steered to their extremes through the affine structure of the CRCs; distinct "
-    "by hash. decode_boundary: deterministic enumeration per decoder - all-zero, all-ones, alternating, every implemented "
-    "opcode/format template with zero/one/random fill and every single-bit flip of the zero- and one-filled strings. "
+    "small full products, computed check values steered to their extremes through the affine structure of the CRCs, and "
+    "'dedicated code' collisions (free-form fields carrying every enum member value of the same PDU and every explicit value "
+    "an identifier member stands for, e.g. UDP ports 5016/5017 in an extended header with SPID/DPID at the escape value, "
+    "singly and together; equal/adjacent values of small integer fields); distinct by hash. decode_boundary: deterministic enumeration per decoder - all-zero, all-ones, alternating, every implemented "
+    "opcode/format template with zero/one/random fill and every single-bit flip of the zero- and one-filled strings, plus "
+    "escape-identifier strings whose explicit fields carry every dedicated value. "
     "(b) decode: per decoder, bit strings of the right length, one third to one half uniform, the rest with opcode / "
     "format / inner enum / check-field bits forced to implemented values; distinct by hash, non-trivial = strings the "
     "decoder accepts (rejected ones are tallied by exception type); thorough adds an Atheris campaign on the same decoders "
@@ -572,6 +582,11 @@ def _build_variants():
               [""] + [p_ for n_ in (1, 7, 8, 9, 16, 70, 192) for p_ in _pat(n_)],
               lambda r: format(r.getrandbits(8 * k), f"0{8 * k}b") if (k := r.randint(0, 24)) else "", ("", "1" * 192))
 
+    # explicit port of an extended header: any 16-bit value, with a share of the ports that have an identifier of their own
+    # (and their neighbours / other application ports) - see vp/refs/elements_ref.DEDICATED
+    _xp = elements_ref.dedicated_values("UDPPortIdentifier") + elements_ref.EXPLICIT_DECOYS["UDPPortIdentifier"]
+    XPORT = G(st.one_of(U(16).strat, U(16).strat, st.sampled_from(_xp)), U(16).bnd, U(16).rnd, (0, 0xFFFF), 16, U(16).core)
+
     def port_original(key):
         return lambda f: f[key] if isinstance(f[key], int) else lib("UDPPortIdentifier")[f[key]].value
 
@@ -585,8 +600,8 @@ def _build_variants():
             Fld("udp_source_port_original", "int", None, kw=None, expect=port_original("udp_source_port_id")),
             Fld("udp_destination_port_original", "int", None, kw=None, expect=port_original("udp_destination_port_id")),
             Fld("user_data", "bits", UDATA),
-            Fld("extended_header_1", "int", U(16) if next_ >= 1 else CH([None])),
-            Fld("extended_header_2", "int", U(16) if next_ >= 2 else CH([None])),
+            Fld("extended_header_1", "int", XPORT if next_ >= 1 else CH([None])),
+            Fld("extended_header_2", "int", XPORT if next_ >= 2 else CH([None])),
         ]
         add(Variant("udp." + name, "UDPIPv4CompressedHeader", fields, lambda f, k=next_: 40 + 16 * k + len(f["user_data"])))
 
@@ -1052,6 +1067,9 @@ def _build_decoders():
         {"force": [(33, 40, [0]), (25, 32, other_ids)], "fields": [(40, 56)], "elem": "UDPPortIdentifier", "min_len": 56},
         {"force": [(25, 32, [0]), (33, 40, [0])], "fields": [(40, 56), (56, 72)], "elem": "UDPPortIdentifier", "min_len": 72},
     ]
+    xp = elements_ref.dedicated_values("UDPPortIdentifier") + elements_ref.EXPLICIT_DECOYS["UDPPortIdentifier"]
+    udp_t = udp_t + [[(25, 32, [0]), (33, 40, other_ids), (40, 56, xp)], [(33, 40, [0]), (25, 32, other_ids), (40, 56, xp)],
+                     [(25, 32, [0]), (33, 40, [0]), (40, 56, xp), (56, 72, xp)]]
     add(Dec("udp.from_bits", "UDPIPv4CompressedHeader", None, (AE,), udp_t, slots=udp_slots,
             lengths=st.one_of(st.integers(5, 30).map(lambda k: 8 * k), st.integers(40, 80), st.sampled_from([40, 48, 55, 56, 64, 71, 72, 80]))))
     add(Dec("udp.from_bytes", "UDPIPv4CompressedHeader", None, (AE,), udp_t, method="from_bytes", slots=udp_slots,
@@ -1258,7 +1276,7 @@ def drv_atheris(ctx: Ctx, sub: SubCheck):
     max_time = int(os.environ.get("VP_ATHERIS_TIME", "120"))
     n_proc = 4
     names = list(decoders())
-    with tempfile.TemporaryDirectory(prefix="vp-c03-atheris-") as tmp:
+    with tempfile.TemporaryDirectory(prefix="vp-c03-atheris-", ignore_cleanup_errors=True) as tmp:
         procs = []
         for k in range(n_proc):
             corpus = os.path.join(tmp, f"corpus{k}")
